@@ -36,6 +36,9 @@ var c08Results = []presult{
 	{"X", [][3]string{{"goos", "linux", "i"}, {"extra", "e", "i"}}, []string{"u1"}},
 	// a name that has the second sub-name key of the alphabet but not the first
 	{"X/j=2", [][3]string{{"goos", "linux", "f"}}, []string{"u1"}},
+	// a sub-name value that itself ends in -digits, in a part that is NOT the last one (only the end of the whole
+	// name is a gomaxprocs suffix), next to the same name without the tail
+	{"X/k=1-4/j=2-8", [][3]string{{"goos", "linux", "f"}}, []string{"u1"}},
 }
 
 var c08Exprs = []string{".config", ".fullname", ".name", "/k", "/gomaxprocs", "goos", "pkg", ".file"}
